@@ -124,10 +124,15 @@ pub fn gen_spec(seed: u64, nrec: usize, hdr: u64) -> Spec {
             h.push_str("##INFO=<ID=XS,Number=.,Type=String,Description=\"Any strings\">\n");
             h.push_str("##INFO=<ID=CH,Number=1,Type=Character,Description=\"A char\">\n");
             h.push_str("##INFO=<ID=FL,Number=2,Type=Float,Description=\"Two floats\">\n");
+            h.push_str("##INFO=<ID=XF,Number=.,Type=Float,Description=\"Any floats\">\n");
         }
         h.push_str("##FILTER=<ID=PASS,Description=\"All filters passed\">\n");
         h.push_str("##FILTER=<ID=q10,Description=\"Quality below 10\">\n");
         h.push_str("##FILTER=<ID=s50,Description=\"Less than 50% of samples have data\">\n");
+        // enough filters for FILTER lists around the typed-length boundary (15)
+        for i in 0..17 {
+            h.push_str(&format!("##FILTER=<ID=f{i:02},Description=\"sweep {i}\">\n"));
+        }
     } else {
         h.push_str("##FILTER=<ID=PASS,Description=\"All filters passed\">\n");
     }
@@ -163,20 +168,58 @@ pub fn gen_spec(seed: u64, nrec: usize, hdr: u64) -> Spec {
         }
         v.join(",")
     }
+    // lengths around the boundaries of BCF's typed-value length encoding: 15 (the length moves out of
+    // the descriptor nibble), 127/128 and 32767/32768 (width of the explicit count), 255/256
+    fn blen(rng: &mut Rng) -> usize {
+        match rng.below(40) {
+            0 => *rng.pick(&[32766usize, 32767, 32768, 32769]),
+            1..=4 => *rng.pick(&[254usize, 255, 256, 257, 258]),
+            5..=8 => *rng.pick(&[126usize, 127, 128, 129]),
+            _ => *rng.pick(&[13usize, 14, 15, 15, 15, 16, 17]),
+        }
+    }
+    fn letters(rng: &mut Rng, n: usize, alphabet: &[u8]) -> String {
+        (0..n).map(|_| *rng.pick(alphabet) as char).collect()
+    }
     const INTS: &[&str] = &["0", "1", "14", "127", "128", "-120", "-121", "300", "32767", "40000", "70000", "-5"];
     const FLOATS: &[&str] = &["0.5", "0.25", "1", "0", "0.125", "-2.5", "1000"];
     let mut lines = Vec::new();
     for _ in 0..nrec {
         let chrom = *rng.pick(&["sq0", "chr1"]);
         let pos = rng.range(1, 4999);
-        let id = if rng.chance(1, 2) { ".".to_string() } else { format!("rs{}", rng.below(100000)) };
-        let refb = *rng.pick(&["A", "C", "G", "T", "AC", "GTT"]);
+        // every third record sweeps value lengths across the typed-length boundaries
+        let sweep = rng.chance(1, 3);
+        let id = if sweep && rng.chance(1, 2) {
+            let n = blen(rng);
+            if rng.chance(1, 2) || n < 5 { letters(rng, n, b"abcxyz0189_") } else { format!("{};{}", letters(rng, n - 4, b"abcxyz0189_"), letters(rng, 3, b"qrs")) }
+        } else if rng.chance(1, 2) { ".".to_string() } else { format!("rs{}", rng.below(100000)) };
+        let ref_long;
+        let refb: &str = if sweep && rng.chance(1, 2) {
+            let n = blen(rng);
+            ref_long = letters(rng, n, b"ACGT");
+            &ref_long
+        } else {
+            *rng.pick(&["A", "C", "G", "T", "AC", "GTT"])
+        };
         let nalt = rng.range(1, 2) as usize;
-        let alts: Vec<&str> = (0..nalt).map(|j| *rng.pick(if j == 0 { &["G", "T", "CA"][..] } else { &["C", "TTA"][..] })).collect();
+        let alt_long;
+        let mut alts: Vec<&str> = (0..nalt).map(|j| *rng.pick(if j == 0 { &["G", "T", "CA"][..] } else { &["C", "TTA"][..] })).collect();
+        if sweep && rng.chance(1, 2) {
+            let n = blen(rng);
+            alt_long = letters(rng, n, b"ACGT");
+            let j = rng.below(nalt as u64) as usize;
+            alts[j] = &alt_long;
+        }
         let nall = nalt + 1;
         let ngen = nall * (nall + 1) / 2;
         let qual = *rng.pick(&[".", "30", "12.5", "0", "1000", "99.75"]);
-        let filter = if hdr >= 1 { *rng.pick(&[".", "PASS", "q10", "q10;s50"]) } else { *rng.pick(&[".", "PASS"]) };
+        let filter_long;
+        let filter: &str = if hdr >= 1 && sweep && rng.chance(1, 2) {
+            let n = *rng.pick(&[13usize, 14, 15, 15, 16, 17]);
+            let start = rng.below(17) as usize;
+            filter_long = (0..n).map(|i| format!("f{:02}", (start + i) % 17)).collect::<Vec<_>>().join(";");
+            &filter_long
+        } else if hdr >= 1 { *rng.pick(&[".", "PASS", "q10", "q10;s50"]) } else { *rng.pick(&[".", "PASS"]) };
         let mut info = Vec::new();
         if hdr >= 1 {
             if rng.chance(1, 2) {
@@ -188,7 +231,10 @@ pub fn gen_spec(seed: u64, nrec: usize, hdr: u64) -> Spec {
             if rng.chance(1, 3) {
                 info.push("DB".to_string());
             }
-            if rng.chance(1, 3) {
+            if sweep && rng.chance(1, 2) {
+                let n = blen(rng);
+                info.push(format!("NM={}", letters(rng, n, b"abcXYZ_:0189")));
+            } else if rng.chance(1, 3) {
                 info.push(format!("NM={}", rng.pick(&["x", "BCF", "a_b", "rs:1"])));
             }
             if rich {
@@ -201,11 +247,36 @@ pub fn gen_spec(seed: u64, nrec: usize, hdr: u64) -> Spec {
                 if rng.chance(1, 3) {
                     info.push(format!("GX={}", vec_of(rng, ngen, FLOATS, true)));
                 }
-                if rng.chance(1, 3) {
+                if sweep && rng.chance(1, 2) {
+                    let n = blen(rng).min(300);
+                    info.push(format!("XI={}", vec_of(rng, n, INTS, true)));
+                } else if rng.chance(1, 3) {
                     let n = rng.range(1, 4) as usize;
                     info.push(format!("XI={}", vec_of(rng, n, INTS, true)));
                 }
-                if rng.chance(1, 3) {
+                if sweep && rng.chance(1, 2) {
+                    let n = blen(rng).min(300);
+                    info.push(format!("XF={}", vec_of(rng, n, FLOATS, true)));
+                }
+                if sweep && rng.chance(1, 2) {
+                    // a string list whose joined text has a boundary length
+                    let n = blen(rng).min(300);
+                    let k = rng.range(1, 3) as usize;
+                    let mut parts: Vec<String> = Vec::new();
+                    let mut left = n;
+                    for j in 0..k {
+                        let take = if j + 1 == k { left } else { (left / 2).max(1) };
+                        if take == 0 || (j + 1 < k && left < 3) {
+                            break;
+                        }
+                        parts.push(letters(rng, take, b"abcXYZ_0189"));
+                        left = left.saturating_sub(take + 1);
+                        if left == 0 {
+                            break;
+                        }
+                    }
+                    info.push(format!("XS={}", parts.join(",")));
+                } else if rng.chance(1, 3) {
                     let n = rng.range(1, 3) as usize;
                     info.push(format!("XS={}", vec_of(rng, n, &["a", "bc", "x_y", "BCF"], false)));
                 }
@@ -300,9 +371,16 @@ pub fn gen_spec(seed: u64, nrec: usize, hdr: u64) -> Spec {
                         "PL" => vec_of(rng, ngen, INTS, true),
                         "AQ" => vec_of(rng, nalt, FLOATS, true),
                         "GF" => rng.pick(FLOATS).to_string(),
-                        "FT" => rng.pick(&["PASS", "q10", "lowq"]).to_string(),
+                        "FT" => {
+                            if sweep && rng.chance(1, 2) {
+                                let n = blen(rng).min(300);
+                                letters(rng, n, b"abcXYZ_0189")
+                            } else {
+                                rng.pick(&["PASS", "q10", "lowq"]).to_string()
+                            }
+                        }
                         _ => {
-                            let n = rng.range(1, 4) as usize;
+                            let n = if sweep && rng.chance(1, 2) { blen(rng).min(300) } else { rng.range(1, 4) as usize };
                             vec_of(rng, n, INTS, true)
                         }
                     });
